@@ -20,6 +20,9 @@ TRUSTED = [
     " observations); export file /repo/proxy/bulk/export_verif_c11.go",
     "SeqQL lexer (unquoting) and JSON unescaping: NOT modelled; each quoting style is validated on the real lexer by"
     " the cases (the model starts from the unquoted string)",
+    "document flattening (decodeInternal/index: dotted names inside objects, multi-type titles) is driven on the real"
+    " bulk processor and checked directly (every present mapped field has its _exists_ token, no other), not"
+    " modelled in Coq; tags/nested arrays, the legacy ParseQuery builders and end-to-end search are not covered",
 ]
 ASSUME = [
     "case-sensitive mode: the keyword/path value (or its partial-indexing cut prefix) is valid UTF-8"
@@ -34,7 +37,9 @@ RULE = ("random values over ASCII word/separator/quote characters, letters and n
         " tokens, and for every query the property names (whole value / each word / each leading path of the indexed"
         " part) the real ParseSeqQL literals and the real pattern.Search verdict. non-trivial = value has a non-ASCII"
         " byte, an upper-case letter, a quote/backslash/'*'/'_'/'/' or is cut by a size limit, is not skipped and"
-        " yields at least one query; distinct by input")
+        " yields at least one query; distinct by input. Plus free query cases (unescaped wildcards, U+E000) and"
+        " documents with flat, object and multi-type fields through the real bulk processor: `_exists_:<title>`"
+        " queried with the parser in case-insensitive mode")
 
 
 def harness_args(tier, seed, outdir):
